@@ -19,7 +19,7 @@
 use common::{catch, hash_str, lib, mix, Engine, Json, Report, Rng, WorkQueue};
 use rlib_bitset::Bitset;
 
-const NS: [usize; 10] = [1, 2, 3, 4, 10, 17, 33, 64, 130, 200];
+const NS: [usize; 11] = [1, 2, 3, 4, 10, 17, 33, 64, 130, 200, 4096];
 const POOL: usize = 3;
 const MAX_OPS: usize = 60;
 /// every this many operations (and at the end of a history) all pool members are observed
@@ -41,6 +41,7 @@ macro_rules! dispatch {
             64 => $f::<64>($($args),*),
             130 => $f::<130>($($args),*),
             200 => $f::<200>($($args),*),
+            4096 => $f::<4096>($($args),*),
             other => panic!("N = {} is not instantiated (use one of {:?})", other, NS),
         }
     };
@@ -950,6 +951,10 @@ fn main() {
                     if n > 17 && k % 8 != 0 {
                         continue;
                     }
+                    // 32 KiB bitsets (a per-word counter of 16 bits is full after 4096 words): a handful of histories
+                    if n >= 1024 && k % 3500 != 0 {
+                        continue;
+                    }
                     let case_seed = mix(&[seed, 0xC12, n as u64, k]);
                     run_history_dyn(n, case_seed, rep, false);
                 }
@@ -976,9 +981,15 @@ fn main() {
             rep.sample_cap = 1;
             while let Some((lo, hi)) = q.take_block(16) {
                 for idx in lo..hi {
+                    // largest capacities first (they are the expensive ones)
+                    let idx = total - 1 - idx;
                     let ni = (0..NS.len()).rev().find(|&t| offsets[t] <= idx).unwrap();
                     let k = (idx - offsets[ni]) as usize;
                     let f = &fams[ni];
+                    // the 32 KiB capacity: every member against itself, the empty and the full set, and a tenth of the rest
+                    if NS[ni] >= 1024 && !(k / f.len() == k % f.len() || k / f.len() < 2 || k % f.len() < 2 || k % 40 == 0) {
+                        continue;
+                    }
                     run_pair_dyn(NS[ni], f, k / f.len(), k % f.len(), rep, false);
                 }
             }
